@@ -39,42 +39,48 @@ fn args_body<const N: usize>(s: &SymStr<N>) {
 	if let Some(want) = ref_args_size(s.slice()) {
 		assert!(matches!(got, Ok(g) if g as u32 == want), "arguments size differs from the JVMS slot count (long/double = 2, arrays = 1)");
 	}
-	witness!(matches!(ref_args_size(s.slice()), Some(3)), "three slots");
+	witness!(matches!(ref_args_size(s.slice()), Some(n) if n >= 2), "a well-formed parameter list with at least one parameter");
 	core::mem::forget(got);
 }
 
 fn brackets<const N: usize>(n: usize, tail: u8) -> [u8; N] { let mut b = [b'['; N]; b[n] = tail; b }
 
 //# {"id":"c02_args_size_t2","props":["C02","C18"],"tier":"quick","cap":900,"bound":"all method descriptors (??)V with ? any ASCII byte (two one-byte parameters, one array parameter, () followed by garbage ...); checked whenever the parameter list is well-formed; unwind 8","fns":["duke::tree::method::MethodDescriptorSlice::get_arguments_size"]}
-//# {"id":"c02_args_size_t_arr","props":["C02","C18"],"tier":"quick","cap":900,"bound":"all method descriptors ([??)V and (?[?)V: arrays of long/double count one slot; unwind 9","fns":["MethodDescriptorSlice::get_arguments_size"]}
+//# {"id":"c02_args_size_t_arr1","props":["C02","C18"],"tier":"quick","cap":900,"bound":"all method descriptors ([?)V: an array of long/double counts one slot; unwind 8","fns":["MethodDescriptorSlice::get_arguments_size"]}
+//# {"id":"c02_args_size_t_arr2","props":["C02","C18"],"tier":"thorough","cap":2400,"bound":"all method descriptors (?[?)V; unwind 9","fns":["MethodDescriptorSlice::get_arguments_size"]}
+//# {"id":"c02_args_size_t_arr3","props":["C02","C18"],"tier":"thorough","cap":2400,"bound":"all method descriptors ([??)V; unwind 9","fns":["MethodDescriptorSlice::get_arguments_size"]}
 //# {"id":"c02_args_size_t_obj","props":["C02","C18"],"tier":"quick","cap":900,"bound":"all method descriptors (L?;?)V: an object parameter followed by a one-byte parameter; unwind 9","fns":["MethodDescriptorSlice::get_arguments_size"]}
-//# {"id":"c16_args_size_limit","props":["C16","C02"],"tier":"quick","cap":900,"bound":"the concrete descriptors ( D*127 )V (255 slots) and ( D*128 )V (257 slots): no panic, the second must be an error; unwind 140","fns":["MethodDescriptorSlice::get_arguments_size"]}
+//# {"id":"c16_args_size_limit","props":["C16","C02"],"tier":"thorough","cap":3600,"bound":"the descriptors ( D*127 ? )V with ? any ASCII byte: 256 or 257 slots must be an error, and no input may panic; unwind 140","fns":["MethodDescriptorSlice::get_arguments_size"]}
 //# {"id":"c16_dims_limit","props":["C16","C18"],"tier":"quick","cap":1200,"bound":"the concrete strings [*254 [*255 [*256 followed by a symbolic element byte ?: field descriptor parse and ArrClassName/ClassName::is_valid accept exactly up to 255 dimensions (JVMS 4.3.2) and never panic; unwind 260","fns":["duke::tree::descriptor::read_field_type","FieldDescriptorSlice::parse","duke::tree::names::is_valid_arr_class_name"]}
 proofs! {
 	#[cfg_attr(kani, kani::unwind(8))]
 	fn c02_args_size_t2() { let s = from_template(b"(??)V"); args_body(&s); }
+	#[cfg_attr(kani, kani::unwind(8))]
+	fn c02_args_size_t_arr1() { let s = from_template(b"([?)V"); args_body(&s); }
 	#[cfg_attr(kani, kani::unwind(9))]
-	fn c02_args_size_t_arr() { if sym::bool() { let s = from_template(b"([??)V"); args_body(&s); } else { let s = from_template(b"(?[?)V"); args_body(&s); } }
+	fn c02_args_size_t_arr2() { let s = from_template(b"(?[?)V"); args_body(&s); }
+	#[cfg_attr(kani, kani::unwind(9))]
+	fn c02_args_size_t_arr3() { let s = from_template(b"([??)V"); args_body(&s); }
 	#[cfg_attr(kani, kani::unwind(9))]
 	fn c02_args_size_t_obj() { let s = from_template(b"(L?;?)V"); args_body(&s); }
 
 	#[cfg_attr(kani, kani::unwind(140))]
 	fn c16_args_size_limit() {
-		let mut a = [b'D'; 131];
-		a[0] = b'(';
-		// 127 doubles: 1 + 254 = 255 slots, the JVMS maximum
-		a[128] = b')'; a[129] = b'V';
+		// "(" D*127 ? ")V": 127 doubles and the receiver are 255 slots, the JVMS maximum; one more
+		// parameter of any kind does not fit the one-byte count operand of invokeinterface
+		const fn base() -> [u8; 131] { let mut a = [b'D'; 131]; a[0] = b'('; a[129] = b')'; a[130] = b'V'; a }
+		let mut a = base();
+		let e = sym::u8();
+		sym::assume(e >= 1 && e < 0x80);
+		a[128] = e;
+		let prim = matches!(e, b'B' | b'C' | b'D' | b'F' | b'I' | b'J' | b'S' | b'Z');
 		// SAFETY: ASCII.
-		let d = unsafe { MethodDescriptorSlice::from_inner_unchecked(JavaStr::from_semi_utf8_unchecked(&a[..130])) };
+		let d = unsafe { MethodDescriptorSlice::from_inner_unchecked(JavaStr::from_semi_utf8_unchecked(&a)) };
 		let r = duke::verif::method_descriptor_arguments_size(d);
-		assert!(matches!(r, Ok(255)), "127 doubles and the receiver are 255 slots");
-		// 128 doubles: 257 slots do not fit the one-byte count operand
-		a[128] = b'D'; a[129] = b')'; a[130] = b'V';
-		// SAFETY: ASCII.
-		let d = unsafe { MethodDescriptorSlice::from_inner_unchecked(JavaStr::from_semi_utf8_unchecked(&a[..131])) };
-		let r2 = duke::verif::method_descriptor_arguments_size(d);
-		assert!(r2.is_err(), "257 argument slots must be reported, not wrapped");
-		core::mem::forget((r, r2));
+		if prim { assert!(r.is_err(), "more than 255 argument slots must be reported, not wrapped"); }
+		witness!(e == b'I', "256 slots");
+		witness!(e == b'J', "257 slots");
+		core::mem::forget(r);
 	}
 
 	#[cfg_attr(kani, kani::unwind(260))]
